@@ -30,6 +30,14 @@ ASSUMPTIONS = [
 @st.composite
 def case(draw, tier="quick"):
     spec = world.default_market(0, 2, bsp_market=False)
+    ri = 0
+    if draw(st.integers(0, 4)) == 0:
+        # handicap market: one selection id on two lines, the order goes on the 0.0 line which is listed second;
+        # the other line carries a different book
+        spec["market_type"] = "ASIAN_HANDICAP"
+        spec["number_of_winners"] = 0
+        spec["runners"] = [{"id": 1001, "hc": draw(st.sampled_from([-1.0, 0.5])), "af": None}, {"id": 1001, "hc": 0, "af": None}]
+        ri = 1
     prices = world.ladder_prices(spec)
     nt = len(prices)
     mid = draw(st.integers(8, 330))
@@ -69,23 +77,26 @@ def case(draw, tier="quick"):
         size = max(0.01, draw(st.sampled_from(opts)))
     else:
         size = gen.size_c(draw, 1, 20000) / 100
-    op = {"op": "place", "r": 0, "side": side, "type": "LIMIT", "tick": tick, "size": size,
+    op = {"op": "place", "r": ri, "side": side, "type": "LIMIT", "tick": tick, "size": size,
           "pers": draw(st.sampled_from(["LAPSE", "PERSIST"]))}
     if draw(st.integers(0, 1)):
         op["tif"] = "FILL_OR_KILL"
         c = draw(st.integers(0, 5))
         op["min_fill"] = [None, round(max(0.01, size / 2), 2), size, round(size + 0.01, 2), 0.01,
                           round(max(0.01, size - 0.01), 2)][c]
-    steps = [{"dt": 1000, "k": "book", "rc": [{"r": 0, "atb": atb, "atl": atl}]}]
+    steps = [{"dt": 1000, "k": "book", "rc": [{"r": ri, "atb": atb, "atl": atl}]}]
+    if ri:
+        oa, ob = draw(gen.book_side_pair(nt, max(3, min(nt - 4, mid + draw(st.integers(-8, 8)))), max_levels=4, allow_empty=False))
+        steps[0]["rc"].insert(0, {"r": 0, "atb": oa, "atl": ob})
     # the executing update carries a *different* book
     atb2, atl2 = draw(gen.book_side_pair(nt, max(3, min(nt - 4, mid + draw(st.integers(-6, 6)))), max_levels=4))
-    steps.append({"dt": 1000, "k": "book", "rc": [{"r": 0, "atb": atb2, "atl": atl2}]})
+    steps.append({"dt": 1000, "k": "book", "rc": [{"r": ri, "atb": atb2, "atl": atl2}]})
     for _ in range(draw(st.integers(0, 6))):
         if draw(st.integers(0, 3)) == 0:
             a, b = draw(gen.book_side_pair(nt, max(3, min(nt - 4, mid + draw(st.integers(-6, 6)))), max_levels=3))
-            rc = {"r": 0, "atb": a, "atl": b}
+            rc = {"r": ri, "atb": a, "atl": b}
         else:
-            rc = {"r": 0}
+            rc = {"r": ri}
         trd = []
         for _ in range(draw(st.integers(1, 3))):
             trd.append([max(0, min(nt - 1, tick + draw(st.integers(-4, 4)))), gen.size_c(draw, 2, 20000) / 100])
@@ -114,11 +125,14 @@ def check(sc):
     bpe = sc["clients"][0]["bpe"]
     full = sc["clients"][0]["full_match"]
     r = lb.renderers[0]
-    snap = r.updates[1].books[0]  # book prevailing before the executing update (update index 2)
+    ri = op.get("r", 0)
+    snap = r.updates[1].books[ri]  # book prevailing before the executing update (update index 2)
     book = snap["atb"] if side == "BACK" else snap["atl"]  # [(price, size)] best first
     level = {p: s for p, s in book}
     best = book[0][0] if book else None
     classes = {"side:" + side, "fok" if fok else "plain", "bpe-on" if bpe else "bpe-off"}
+    if ri:
+        classes.add("handicap-line-0.0-listed-second")
     if full:
         classes.add("full-match")
     if best is None:
